@@ -414,16 +414,18 @@ def layout_one_gap(gap, name):
 # ---------------------------------------------------------------------------- TLC drivers
 
 def generate(check, family, rootcat="top", rootmax=2, depth=3, num=2000, seed=1, allowed=None, exhaustive=False, timeout=1800, maxchoices=0,
-             listlens=None, glue=None, wrappers=None):
+             listlens=None, glue=None, wrappers=None, focusfamily=None):
     """Runs SyntaxGen.tla; returns (table, behaviours).  listlens: lengths for every repeatable list (long-list mode);
     glue: variant ids of the self-nesting mode (one other variant per derivation)."""
     al = "{" + ", ".join('"%s"' % a for a in (allowed or [])) + "}"
     gl = "{" + ", ".join('"%s"' % a for a in (glue or [])) + "}"
     ll = "{" + ", ".join(str(n) for n in (listlens or [])) + "}"
     wr = "{" + ", ".join('"%s"' % a for a in (wrappers or [])) + "}"
-    mc = "---- MODULE MCSyntaxGen ----\nEXTENDS SyntaxGen\nASSUME ExportTable\nMCAllowed == %s\nMCGlue == %s\nMCWrappers == %s\nMCListLens == %s\n====\n" % (al, gl, wr, ll)
+    ff = "{" + ", ".join('"%s"' % a for a in (focusfamily or [])) + "}"
+    mc = ("---- MODULE MCSyntaxGen ----\nEXTENDS SyntaxGen\nASSUME ExportTable\nMCAllowed == %s\nMCGlue == %s\nMCWrappers == %s\nMCListLens == %s\nMCFocusFamily == %s\n====\n"
+          % (al, gl, wr, ll, ff))
     cfg = ("SPECIFICATION GSpec\nCONSTANTS RootCat = \"%s\" RootMax = %d Depth = %d Family = \"%s\" Random = %s MaxChoices = %d\n"
-           "CONSTANT Allowed <- MCAllowed\nCONSTANT Glue <- MCGlue\nCONSTANT Wrappers <- MCWrappers\nCONSTANT ListLens <- MCListLens\nINVARIANTS Terminates%s\nCHECK_DEADLOCK FALSE\n"
+           "CONSTANT Allowed <- MCAllowed\nCONSTANT Glue <- MCGlue\nCONSTANT Wrappers <- MCWrappers\nCONSTANT FocusFamily <- MCFocusFamily\nCONSTANT ListLens <- MCListLens\nINVARIANTS Terminates%s\nCHECK_DEADLOCK FALSE\n"
            % (rootcat, rootmax, depth, family, "FALSE" if exhaustive else "TRUE", maxchoices, "" if glue else " NoDeadEnd"))
     pick = None
     if exhaustive:
